@@ -28,7 +28,7 @@ theorem observe_atomic (h : Heap) (handler : Nat) (root : Id) (rm : Bool) (e : E
     (∀ o q, cnt (observe h handler root rm e H).H o q = cnt H o q) ∧ WF (observe h handler root rm e H).H := by
   unfold observe at he ⊢
   cases hc : e.compile with
-  | error ex => simp only [hc]; exact ⟨fun _ _ => rfl, hw⟩
+  | error ex => exact ⟨fun _ _ => rfl, hw⟩
   | ok gs =>
     simp only [hc] at he ⊢
     exact applyObservers_atomic h _ rm _ gs H hw he
